@@ -469,6 +469,12 @@ func (ru *runner) restartAfterKill(cw *crashWorld, dir string, vers map[string]i
 			r.Violation(key+":restart-serves-other-than-cache:"+targetClass(t), "after kill and restart a list does not serve the complete version that is in its cache file", wm)
 		}
 	}
+	if len(obs.Foreign) > 0 {
+		good = false
+		wm := cp()
+		wm["serves_content_of"] = obs.Foreign
+		r.Violation(key+":restart-list-serves-another-lists-content", "after kill and restart a rule list filters hosts that only another list contains", wm)
+	}
 	if len(obs.Errs) > 0 {
 		good = false
 		r.Violation(key+":restart-filtering-error", "after kill and restart filtering fails", cp())
